@@ -663,7 +663,16 @@ func VerifC20BadBranches() {
 	ctx := context.Background()
 	vcfg("fifo", 1)
 	var err error
-	switch vchoose("case", 3) {
+	switch vchoose("case", 4) {
+	case 3: // a branch without any target
+		g := NewGraph[map[string]any, map[string]any]()
+		_ = g.AddLambdaNode("a", vNode("a", nil))
+		_ = g.AddEdge(START, "a")
+		_ = g.AddEdge("a", END)
+		err = g.AddBranch("a", NewGraphBranch(func(ctx context.Context, in map[string]any) (string, error) { return END, nil }, map[string]bool{}))
+		if err == nil {
+			_, err = g.Compile(ctx)
+		}
 	case 0:
 		g := NewGraph[map[string]any, map[string]any]()
 		_ = g.AddLambdaNode("a", vNode("a", nil))
@@ -688,5 +697,5 @@ func VerifC20BadBranches() {
 		wf.AddBranch("a", nil)
 		_, err = wf.Compile(ctx)
 	}
-	vassert(err != nil, "a nil branch or a branch to an unknown node is rejected with an error")
+	vassert(err != nil, "a nil branch, a branch without targets or a branch to an unknown node is rejected with an error")
 }
